@@ -136,6 +136,21 @@ void run_meta(const Case& c, Result& r)
         // 1-6 other embed calls first (other methods, parameters, sizes; some of them throw)
         int n = 1 + g.below(6);
         static const char* others[] = {"pca", "mds", "klle", "le", "isomap", "dm", "spe", "rp", "lmds", "kltsa", "hlle", "fa", "passthru", "lpp"};
+        // the first preceding call has the same method, size and parameters but other data, the second the same data but other
+        // parameters (what a cache keyed by size / method / address would confuse); the rest is unrelated
+        {
+            Case cs = c;
+            cs.kv["dseed"] = sf("%ld", c.i("dseed", 1) + 1);
+            Run same_size;
+            do_embed(same_size, make_data(cs), cs, false);
+            Case cp = c;
+            cp.kv["td"] = sf("%ld", c.i("td", 2) == 1 ? 2 : 1);
+            cp.kv["k"] = sf("%ld", c.i("k", 6) + 1);
+            cp.kv["width"] = "7.5";
+            Run same_data;
+            do_embed(same_data, X, cp, false);
+            r.addnum("history_calls", 2);
+        }
         for (int q = 0; q < n; ++q)
         {
             Case co;
